@@ -355,9 +355,23 @@ def nan_feature_cols(case):
     training data and every new data set of the case."""
     out = []
     for i, f in enumerate(case["fields"]):
+        if f.get("nan_cols") is not None:
+            out.append(sorted(int(c) for c in f["nan_cols"]))  # explicit (dedicated cases)
+            continue
         rng = gen.rng_for(case["dseed"], 31, i)
         out.append(sorted(int(c) for c in rng.choice(f["p"], size=f["nf_nan"], replace=False)) if f["nf_nan"] else [])
     return out
+
+
+def empty_element(case):
+    """True when the missing features wipe out a whole element of a container (one DataArray of a list, one variable
+    of a Dataset): a legitimate 'fully missing features' input with its own code path in the Sanitizer/Concatenator."""
+    for f, cols in zip(case["fields"], nan_feature_cols(case)):
+        if f["kind"] in ("ds", "dsmix", "list") and cols:
+            q, cs = f["q"], set(cols)
+            if all(c in cs for c in range(q)) or all(c in cs for c in range(q, f["p"])):
+                return True
+    return False
 
 
 def raw_matrices(case, n, rng, nan_rows=()):
